@@ -18,7 +18,7 @@ import random
 import shutil
 import typing as T
 
-from harness import featproj, projgen, refninja
+from harness import featproj, mesondrv, projgen, refninja
 from harness.core import Ctx, Evidence, Failure, HarnessError, campaign, make_scratch, pmap, shard_seeds
 from harness.mesondrv import run_inproc, run_sub, base_env
 
@@ -35,7 +35,11 @@ RULE = ('Hypothesis project models (profile deps: C sources that really #include
         'link_whole of a custom target, both_libraries(), generator depends:/built generator programs, depfile:, vcs_tag()/configure_file(command:), '
         'run/alias targets, subproject and sibling-directory generated headers; the seed only selects option sets: layout, unity, default_library, '
         'b_pch, buildtype, language) is configured in a fresh process and judged by the same oracle (dyndep files are built and loaded first); '
-        'its cases are counted in class feature/<entry> with the same non-triviality rule, distinct by (case hash, edge outputs / order).')
+        'its cases are counted in class feature/<entry> with the same non-triviality rule, distinct by (case hash, edge outputs / order). '
+        'Corpus: projects of the repository\'s `test cases/{common,unit,native,linuxlike}` (24 seed-chosen ones in the quick tier; all of them under three '
+        'option sets - plain, layout=flat, default_library=both+unity - in the thorough tier) are configured and really built by the same executor; a '
+        'project whose declaration-order build does not succeed here is left out (counted under excluded), the others are held to the hermetic replay '
+        'and the schedules (class corpus).')
 ASSUMPTIONS = [
     'build steps are monotone in the set of present files (a step that succeeds with only its ancestors present also succeeds with more files present); the schedule runs test this assumption',
     'build.ninja is executed by harness/refninja.py (no ninja binary in the sandbox): /bin/sh -c <expanded command> in the build dir, rspfiles written as ninja does',
@@ -271,6 +275,49 @@ def check_feature(case: dict, workdir: str, ev: T.Optional[Evidence], seed: int,
         shutil.rmtree(workdir, ignore_errors=True)
 
 
+def corpus_projects() -> T.List[str]:
+    import glob
+    out = []
+    for sub in ('common', 'unit', 'native', 'linuxlike'):
+        for d in sorted(glob.glob(os.path.join(mesondrv.REPO, 'test cases', sub, '*'))):
+            if os.path.isfile(os.path.join(d, 'meson.build')):
+                out.append(os.path.relpath(d, mesondrv.REPO))
+    return out
+
+
+def check_corpus(case: dict, workdir: str, ev: T.Optional[Evidence], seed: int, nsched: int = 2) -> T.Optional[Failure]:
+    """A project of the repository's own `test cases/` tree, really built by the executor.  What the project's own
+    programs do is not known here, so a project whose reference build does not succeed (missing tool, test that expects
+    a failure) is left out; once the reference build succeeded, every statement has to succeed again with only its
+    declared ancestors' outputs present, and under every other valid order."""
+    src = os.path.join(workdir, 'src')
+    bld = os.path.join(workdir, 'bld')
+    side = os.path.join(workdir, 'side')
+    shutil.rmtree(workdir, ignore_errors=True)
+    os.makedirs(workdir)
+    try:
+        shutil.copytree(os.path.join(mesondrv.REPO, case['corpus']), src, symlinks=True)
+        r = run_sub(['setup'] + list(case.get('args', [])) + [bld, src], timeout=300)
+        if r.rc != 0 or 'MESON_SKIP_TEST' in r.text or not os.path.exists(os.path.join(bld, 'build.ninja')):
+            if ev is not None:
+                ev.exclude('corpus project does not configure here')
+            return None
+        run_names: T.Set[str] = set()      # run targets of a foreign project may do anything (start tests, write to the source tree)
+        f = judge_build(bld, side, case, ev, seed, nsched, run_names, model_hash(case), cls='corpus')
+        if f is not None and f.sig.startswith(('schedule/declaration-order-fails', 'schedule/output-not-produced')):
+            if os.environ.get('VERIF_DEBUG'):
+                print('NOBUILD', case['corpus'], f.msg[:600].replace('\n', ' | '), flush=True)
+            if ev is not None:
+                ev.exclude('corpus project does not build here in declaration order (tool missing / failure expected by the test)')
+            return None
+        if f is not None:
+            f.sig = f'{f.sig}@corpus'
+            f.msg = f'{case["corpus"]}: {f.msg}'
+        return f
+    finally:
+        shutil.rmtree(workdir, ignore_errors=True)
+
+
 def load_dyndeps(m: refninja.Manifest, edges: T.List[refninja.Edge], bld: str, env: T.Dict[str, str], case: T.Any) -> T.Optional[Failure]:
     """Ninja's dynamic dependencies: statements bound to a dyndep file learn further implicit inputs/outputs from it
     once it has been built.  Here every dyndep file (with its declared ancestors) is built first, in declaration-stable
@@ -481,9 +528,23 @@ def _feat_shard(shard: T.Tuple[int, int, dict], ev: Evidence, fails: T.List[Fail
         shutil.rmtree(work, ignore_errors=True)
 
 
+def _corpus_shard(shard: T.Tuple[int, int, T.List[dict]], ev: Evidence, fails: T.List[Failure]) -> None:
+    seed, nsched, cases = shard
+    work = make_scratch('c05-corpus')
+    sigs: T.Set[str] = set()
+    try:
+        for case in cases:
+            f = check_corpus(case, os.path.join(work, 'case'), ev, seed, nsched)
+            if f is not None and f.sig not in sigs:
+                sigs.add(f.sig)
+                fails.append(f)
+    finally:
+        shutil.rmtree(work, ignore_errors=True)
+
+
 def _shard(shard: T.Tuple[str, T.Any], ev: Evidence, fails: T.List[Failure]) -> None:
     kind, payload = shard
-    (_feat_shard if kind == 'feat' else _gen_shard)(payload, ev, fails)
+    {'feat': _feat_shard, 'gen': _gen_shard, 'corpus': _corpus_shard}[kind](payload, ev, fails)
 
 
 def run(ctx: Ctx) -> None:
@@ -498,10 +559,26 @@ def run(ctx: Ctx) -> None:
     ctx.ev.extra['catalogue_cases'] = len(cs)
     # one pool for both kinds: the 16 (long) generated-model shards start first, the catalogue projects - one small task
     # each, most expensive first - fill the cores as they become free
-    pmap(ctx, _shard, gen + feat)
+    # the repository's own test projects, really built: a seed-chosen handful in the quick tier, all of them (plain, flat
+    # layout, both-libraries/unity) in the thorough tier
+    projs = corpus_projects()
+    variants: T.List[T.List[str]] = [[], ['--layout=flat'], ['-Ddefault_library=both', '-Dunity=on', '-Dunity_size=2']]
+    rnd = random.Random(f'c05-corpus:{ctx.seed}')
+    if ctx.quick:
+        rnd.shuffle(projs)
+        cc = [{'corpus': p, 'args': rnd.choice(variants)} for p in projs[:24]]
+        nsh = 8
+    else:
+        cc = [{'corpus': p, 'args': v} for p in projs for v in variants]
+        nsh = 48
+    ctx.ev.extra['corpus_cases'] = len(cc)
+    corpus = [('corpus', (ctx.seed, 2 if ctx.quick else 3, cc[i::nsh])) for i in range(nsh) if cc[i::nsh]]
+    pmap(ctx, _shard, gen + feat + corpus)
 
 
 def replay(ctx: Ctx, case: T.Any, doc: dict) -> T.Optional[Failure]:
     if isinstance(case, dict) and 'feature' in case:
         return check_feature(case, os.path.join(ctx.scratch, 'replay'), None, doc.get('seed', 1), 6)
+    if isinstance(case, dict) and 'corpus' in case:
+        return check_corpus(case, os.path.join(ctx.scratch, 'replay'), None, doc.get('seed', 1), 4)
     return check_model(case, os.path.join(ctx.scratch, 'replay'), None, doc.get('seed', 1), 6)
